@@ -17,7 +17,55 @@ from attr import converters as cv
 import common
 
 LOG: list = []
-CUR = {"cls": None, "insts": []}
+CUR = {"cls": None, "insts": [], "exc": "UserError"}
+REG: dict = {}        # id -> object for every token / term / factory result / default created in this case
+TOKS: dict = {}       # token name -> the one Tok object of this case (a repeated input is the identical object)
+FNS: dict = {}        # (name, beh) -> the one instrumented function of this case (shared between leaves)
+RAISED: list = []     # exception objects raised by instrumented callbacks
+
+
+class UKey(KeyError):
+    pass
+
+
+class UStop(StopIteration):
+    pass
+
+
+class UType(TypeError):
+    pass
+
+
+class UAttr(AttributeError):
+    pass
+
+
+class UValue(ValueError):
+    pass
+
+
+class UBase(BaseException):
+    pass
+
+
+EXC_CLASSES = {"UserError": common.UserError, "KeyError": UKey, "StopIteration": UStop, "TypeError": UType,
+               "AttributeError": UAttr, "ValueError": UValue, "BaseException": UBase}
+
+
+def _raise(name):
+    e = EXC_CLASSES[CUR["exc"]](name)
+    e.c19_name = name
+    RAISED.append(e)
+    raise e
+
+
+def _reg(o):
+    REG[id(o)] = o
+    return o
+
+
+def _known(o):
+    return REG.get(id(o)) is o
 
 
 class Tok:
@@ -57,20 +105,24 @@ def decode(val):
     s = val["v"]["s"]
     if s in FALSY:
         v = FALSY[s]
-        return [] if s == "[]" else v
-    return Tok(s)
+        return _reg([]) if s == "[]" else v
+    t = TOKS.get(s)
+    if t is None:
+        t = TOKS[s] = _reg(Tok(s))
+    return t
 
 
 def render(v):
     if v is None:
         return "None"
     t = type(v)
+    # the very objects must travel through the combinators: a copy is rendered differently
     if t is Tok:
-        return v.name
+        return v.name + ("" if _known(v) else "~copy")
     if t is Term:
-        return v.text
+        return v.text + ("" if _known(v) else "~copy")
     if t is Fresh:
-        return f"{v.g}()#{v.n}"
+        return f"{v.g}()#{v.n}" + ("" if _known(v) else "~copy")
     if v is False:
         return "False"
     if t is int and v == 0:
@@ -78,7 +130,7 @@ def render(v):
     if t is str and v == "":
         return "''"
     if t is list and v == []:
-        return "[]"
+        return "[]" + ("" if _known(v) else "~copy")
     if CUR["cls"] is not None and t is CUR["cls"]:
         CUR["insts"].append(v)
         return "self"
@@ -89,18 +141,23 @@ def render(v):
 
 
 def make_fn(name, beh):
+    got = FNS.get((name, beh))
+    if got is not None:
+        return got
+
     def f(*args, **kw):
         text = name + "(" + ",".join([render(a) for a in args] + [f"{k}={render(v)}" for k, v in sorted(kw.items())]) + ")"
         LOG.append(text)
         if beh == "term":
-            return Term(text)
+            return _reg(Term(text))
         if beh == "none":
             return None
         if beh == "falsy":
             return 0
-        raise common.UserError(name)
+        _raise(name)
 
     f.__name__ = name
+    FNS[(name, beh)] = f
     return f
 
 
@@ -110,12 +167,12 @@ def make_factory(g, beh):
         n = LOG.count(text)
         LOG.append(text)
         if beh == "term":
-            return Fresh(g, n)
+            return _reg(Fresh(g, n))
         if beh == "none":
             return None
         if beh == "falsy":
             return 0
-        raise common.UserError(g)
+        _raise(g)
 
     fac.__name__ = g
     return fac
@@ -209,14 +266,19 @@ def _outcome(thunk):
     try:
         return "=" + render(thunk())
     except BaseException as e:  # noqa: BLE001
-        return "!" + common.exc_kind(e)
+        # the callback's own exception object must come out, whatever its class
+        if any(e is x for x in RAISED):
+            return "!user:" + e.c19_name
+        return "!" + common.exc_kind(e).replace("user:", "foreign-user:")
 
 
 def observe(case):
     cfg = case.get("cfg", {})
-    del LOG[:]
+    del LOG[:], RAISED[:]
+    REG.clear(), TOKS.clear(), FNS.clear()
     CUR["cls"] = None
     CUR["insts"] = []
+    CUR["exc"] = cfg.get("exc", "UserError")
     results = []
     try:
         tree = case["tree"]
@@ -225,9 +287,12 @@ def observe(case):
         top_list = cfg.get("list_form") and "pipe" in tree and len(tree["pipe"]["cs"]) > 0
         if mode == "standalone":
             obj = build(tree, cfg)
-            inst, field = Tok(case["inst"]), Tok(case["field"])
+            inst, field = _reg(Tok(case["inst"])), _reg(Tok(case["field"]))
             for val in case["inputs"]:
                 v = decode(val)
+                if cfg.get("rebuild"):
+                    # a second combinator object over the same leaf functions: no state may be shared
+                    obj = build(tree, cfg)
                 if isinstance(obj, attr.Converter):
                     results.append(_outcome(lambda: obj(v, inst, field)))
                 else:
@@ -274,7 +339,8 @@ def observe(case):
                             LOG.append("!wrong-instance")
         return {"results": results, "trace": list(LOG)}
     finally:
-        del LOG[:]
+        del LOG[:], RAISED[:]
+        REG.clear(), TOKS.clear(), FNS.clear()
         CUR["cls"] = None
         CUR["insts"] = []
 
@@ -286,7 +352,7 @@ def _run_init(cls, fname, v, bgk, use_default):
     if not use_default:
         kw[_alias(fname)] = v
     if bgk != "none":
-        kw["y"] = Tok("ty")
+        kw["y"] = _reg(Tok("ty"))
     box = []
 
     def thunk():
@@ -357,12 +423,17 @@ def rand_cfg(rng, mode):
         "dflt_style": rng.choice(["value", "factory"]),
         "dinf": rng.choice(["kw", "Factory", "Factory_pos"]),
         "din_pos": rng.random() < 0.5,
+        "exc": rng.choice(list(EXC_CLASSES)),
+        "rebuild": rng.random() < 0.3,
     }
 
 
 def rand_inputs(rng):
-    n = rng.choice([1, 1, 2, 2, 3])
-    return [rng.choice(INPUT_POOL) if rng.random() < 0.6 else "none" for _ in range(n)]
+    n = rng.choice([1, 1, 2, 2, 3, 4])
+    ins = [rng.choice(INPUT_POOL) if rng.random() < 0.6 else "none" for _ in range(n)]
+    if n >= 2 and rng.random() < 0.4:
+        ins[-1] = ins[0]          # the identical object again: nothing may be remembered between uses
+    return ins
 
 
 def mk_case(rng, tree, mode=None, inputs=None):
@@ -413,7 +484,7 @@ def small_trees(level):
 
 
 def gen_cases(tier, rng):
-    std_inputs = ["none", {"v": {"s": "t0"}}, "none", {"v": {"s": "0"}}]
+    std_inputs = ["none", {"v": {"s": "t0"}}, "none", {"v": {"s": "0"}}, {"v": {"s": "t0"}}]
     # structured block: small trees x every mode
     for t in small_trees(2 if tier == "quick" else 3):
         for mode in MODES:
@@ -471,6 +542,7 @@ def dist(case, obs):
         "conv.outcome": "fault" if any(r.startswith("!") for r in res) else "ok",
         "conv.api": case.get("cfg", {}).get("api"),
         "conv.bg": case.get("bg"),
+        "conv.exc_class": case.get("cfg", {}).get("exc") if any(r.startswith("!") for r in res) else "-",
     }
 
 
@@ -503,7 +575,8 @@ def shrink(case):
     if case["bg"] != "none":
         yield dict(case, bg="none")
     base = {"api": "attr.s", "slots": None, "frozen": False, "kw_only": False, "hook": "cls", "hook_pipe": False,
-            "list_form": None, "dflt_style": "value", "dinf": "kw", "din_pos": False}
+            "list_form": None, "dflt_style": "value", "dinf": "kw", "din_pos": False, "exc": "UserError",
+            "rebuild": False}
     cfg = case.get("cfg", {})
     for k, v in base.items():
         if cfg.get(k) != v:
